@@ -170,3 +170,235 @@ Proof.
   - unfold o_stat. rewrite Eabs, (inv_os _ Hinv).
     destruct (abs_path_split cs Hcs) as [(-> & E1 & E2)|(ps & c & -> & Hps & Hc & E1 & E2)]; rewrite E2; crush Hinv.
 Qed.
+
+(* ---- open files ---------------------------------------------------------------------------------------- *)
+Definition handle_ok (h : oheap) (f : handle) : Prop :=
+  match hd_node f with Some c => c < length h | None => True end.
+
+Ltac prologue_ok Hf :=
+  unfold o_prologue;
+  match goal with |- context [hd_name ?f] => destruct (hd_name f); [crush I|] end;
+  match goal with |- context [hd_node ?f] => unfold handle_ok in Hf; destruct (hd_node f) as [c|]; [|crush I] end;
+  match goal with |- context [oget ?h ?c0] =>
+    let End := fresh "End" in
+    destruct (oget h c0) as [nd|] eqn:End; [|exfalso; destruct (oget_lt_some h c0 Hf) as (x & Hx); congruence] end.
+
+Lemma ok_handle_calls s f : handle_ok (o_heap s) f ->
+  (forall n, res_ok (snd (of_read s f n))) /\ (forall n off, res_ok (of_read_at s f n off))
+  /\ (forall b, res_ok (snd (of_write s f b))) /\ (forall b off, res_ok (snd (of_write_at s f b off)))
+  /\ (forall off wh, res_ok (snd (of_seek s f off wh))) /\ (forall size, res_ok (snd (of_truncate s f size)))
+  /\ res_ok (of_stat s f) /\ res_ok (f_sync f) /\ (forall m, res_ok (snd (of_chmod s f m)))
+  /\ (forall u g, res_ok (snd (of_chown s f u g))) /\ res_ok (snd (of_chdir s f)) /\ res_ok (snd (f_close f))
+  /\ (forall n, res_ok (snd (of_read_dir s f n))) /\ (forall n, res_ok (snd (of_readdirnames s f n))).
+Proof.
+  intros Hf. repeat split; intros.
+  - unfold of_read. prologue_ok Hf. crush I.
+  - unfold of_read_at. prologue_ok Hf. crush I.
+  - unfold of_write. prologue_ok Hf. crush I.
+  - unfold of_write_at. destruct (Z.ltb off 0); [exact I|]. prologue_ok Hf. crush I.
+  - unfold of_seek. prologue_ok Hf. crush I.
+  - unfold of_truncate. prologue_ok Hf. crush I.
+  - unfold of_stat. prologue_ok Hf. all: crush I.
+  - unfold f_sync. crush I.
+  - unfold of_chmod. prologue_ok Hf. crush I.
+  - unfold of_chown. prologue_ok Hf. crush I.
+  - unfold of_chdir. prologue_ok Hf. crush I.
+  - unfold f_close, closed_err. crush I.
+  - unfold of_read_dir. prologue_ok Hf. all: unfold o_batch; crush I.
+  - unfold of_readdirnames. prologue_ok Hf. all: unfold o_batch; crush I.
+Qed.
+
+(* ---- the heap never shrinks, so open handles keep pointing at nodes ---------------------------------------- *)
+Lemma add_child_length h p c j : length (o_add_child h p c j) = length h.
+Proof. unfold o_add_child. destruct (oget h p); [apply oupd_length|reflexivity]. Qed.
+Lemma del_child_length h p c : length (o_del_child h p c) = length h.
+Proof. unfold o_del_child. destruct (oget h p); [apply oupd_length|reflexivity]. Qed.
+Lemma release_length h c : length (o_release h c) = length h.
+Proof. unfold o_release. destruct (oget h c); [apply oupd_length|reflexivity]. Qed.
+
+Lemma rm_all_length os : forall fuel st p i, length (snd (o_rm_all fuel os st p i)) = length (snd st).
+Proof.
+  induction fuel as [|f IH]; intros st p i; cbn [o_rm_all]; [reflexivity|]. cbn [snd]. rewrite release_length.
+  destruct (oget (snd st) i) as [n|]; [|reflexivity]. destruct (on_dir n); [|reflexivity].
+  generalize (on_ch n). intros l. revert st. induction l as [|e l IHl]; intros st; cbn [fold_left]; [reflexivity|].
+  rewrite IHl. apply IH.
+Qed.
+
+Lemma create_node_length s p a c m : length (o_heap (fst (o_create_node s p a c m))) = S (length (o_heap s)).
+Proof. unfold o_create_node. cbn [fst o_heap]. rewrite add_child_length, app_length. cbn [length]. lia. Qed.
+
+Lemma create_chain_length perm : forall paths s p, length (o_heap s) <= length (o_heap (o_create_chain s p paths perm)).
+Proof.
+  induction paths as [|x r IH]; intros s p; cbn [o_create_chain]; [lia|].
+  unfold o_create_dir. pose proof (create_node_length s p x (snd (split_abs (o_os s) x))
+    (N.lor (dir_mode (o_os s)) (N.ldiff (N.land perm (511 + MODE_STICKY)) (o_umask s)))) as H.
+  destruct (o_create_node s p x _ _) as [s1 c1]. cbn [fst] in H. specialize (IH s1 c1). lia.
+Qed.
+
+Ltac len :=
+  repeat match goal with
+  | |- context [match ?x with _ => _ end] => destruct x eqn:?
+  end;
+  cbn [fst snd o_heap o_with o_with_heap o_with_cwd o_with_user o_with_umask];
+  rewrite ?oupd_length, ?del_child_length, ?add_child_length, ?release_length; try lia.
+
+Lemma len_open_file s name flag perm : length (o_heap s) <= length (o_heap (fst (o_open_file s name flag perm))).
+Proof.
+  unfold o_open_file, o_create_file.
+  repeat match goal with |- context [match ?x with _ => _ end] =>
+    lazymatch x with o_create_node _ _ _ _ _ => fail | _ => destruct x eqn:? end end; cbn [fst o_heap o_with_heap o_with]; rewrite ?oupd_length; try lia.
+  all: match goal with |- context [o_create_node ?s ?p ?a ?c ?m] =>
+         let H := fresh "H" in let sx := fresh "sx" in let cx := fresh "cx" in
+         pose proof (create_node_length s p a c m) as H; destruct (o_create_node s p a c m) as [sx cx]; cbn [fst] in *; lia end.
+Qed.
+
+Lemma len_mono_ns s :
+  (forall n p, length (o_heap s) <= length (o_heap (fst (o_mkdir s n p))))
+  /\ (forall n p, length (o_heap s) <= length (o_heap (fst (o_mkdir_all s n p))))
+  /\ (forall n, length (o_heap s) <= length (o_heap (fst (o_remove s n))))
+  /\ (forall n, length (o_heap s) <= length (o_heap (fst (o_remove_all s n))))
+  /\ (forall o n, length (o_heap s) <= length (o_heap (fst (o_rename s o n))))
+  /\ (forall o n, length (o_heap s) <= length (o_heap (fst (o_link s o n))))
+  /\ (forall n z, length (o_heap s) <= length (o_heap (fst (o_truncate s n z))))
+  /\ (forall n m, length (o_heap s) <= length (o_heap (fst (o_chmod s n m))))
+  /\ (forall n u g, length (o_heap s) <= length (o_heap (fst (o_chown s n u g))))
+  /\ (forall n, length (o_heap s) <= length (o_heap (fst (o_chdir s n)))).
+Proof.
+  repeat split; intros.
+  - unfold o_mkdir, o_create_dir.
+    repeat match goal with |- context [match ?x with _ => _ end] =>
+      lazymatch x with o_create_node _ _ _ _ _ => fail | _ => destruct x eqn:? end end; cbn [fst]; try lia.
+    rewrite create_node_length. lia.
+  - unfold o_mkdir_all. repeat match goal with |- context [match ?x with _ => _ end] => destruct x eqn:? end; cbn [fst]; try lia.
+    apply create_chain_length.
+  - unfold o_remove. len.
+  - unfold o_remove_all.
+    repeat match goal with |- context [match ?x with _ => _ end] =>
+      lazymatch x with o_rm_all _ _ _ _ _ => fail | _ => destruct x eqn:? end end; cbn [fst]; try lia.
+    match goal with |- context [o_rm_all ?f ?os ?st ?p ?i] =>
+      let H := fresh "H" in let i1 := fresh "i1" in let h1 := fresh "h1" in pose proof (rm_all_length os f st p i) as H; destruct (o_rm_all f os st p i) as [i1 h1] end.
+    cbn [snd fst o_with o_heap] in *. rewrite del_child_length. lia.
+  - unfold o_rename. len.
+  - unfold o_link. len.
+  - unfold o_truncate. len.
+  - unfold o_chmod. len.
+  - unfold o_chown. len.
+  - unfold o_chdir. len.
+Qed.
+
+Lemma len_handle_calls s f :
+  (forall b, length (o_heap (fst (fst (of_write s f b)))) = length (o_heap s))
+  /\ (forall b off, length (o_heap (fst (of_write_at s f b off))) = length (o_heap s))
+  /\ (forall z, length (o_heap (fst (of_truncate s f z))) = length (o_heap s))
+  /\ (forall m, length (o_heap (fst (of_chmod s f m))) = length (o_heap s))
+  /\ (forall u g, length (o_heap (fst (of_chown s f u g))) = length (o_heap s))
+  /\ length (o_heap (fst (of_chdir s f))) = length (o_heap s).
+Proof.
+  repeat split; intros.
+  - unfold of_write, o_prologue. len; reflexivity.
+  - unfold of_write_at, o_prologue. len; reflexivity.
+  - unfold of_truncate, o_prologue. len; reflexivity.
+  - unfold of_chmod, o_prologue. len; reflexivity.
+  - unfold of_chown, o_prologue. len; reflexivity.
+  - unfold of_chdir, o_prologue. len; reflexivity.
+Qed.
+
+Lemma ofind_lt s k c cn : ofind s k = Some (c, cn) -> c < length (o_heap s).
+Proof. intros H. apply ofind_some in H. destruct H as [_ H]. eapply oget_some_lt. exact H. Qed.
+
+Lemma open_file_handle_ok s name flag perm s1 f :
+  o_open_file s name flag perm = (s1, inr f) -> handle_ok (o_heap s1) f.
+Proof.
+  unfold o_open_file, o_create_file. intros E.
+  repeat match type of E with context [match ?x with _ => _ end] =>
+    lazymatch x with o_create_node _ _ _ _ _ => fail | _ => destruct x eqn:? end end; try discriminate.
+  all: try (inversion E; subst; unfold handle_ok; cbn [new_handle hd_node o_with_heap o_with o_heap];
+            rewrite ?oupd_length; eapply ofind_lt; eassumption).
+  match type of E with context [o_create_node ?s ?p ?a ?c ?m] =>
+    pose proof (create_node_length s p a c m) as Hl; destruct (o_create_node s p a c m) as [sx cx] eqn:Ecr end.
+  inversion E; subst. unfold handle_ok. cbn [new_handle hd_node]. cbn [fst] in Hl.
+  unfold o_create_node in Ecr. inversion Ecr; subst. cbn [o_heap] in *. lia.
+Qed.
+
+Lemma ok_composites s name : orefa_inv s ->
+  res_ok (o_read_dir s name) /\ res_ok (o_read_file s name) /\ (forall d p, res_ok (snd (o_write_file s name d p))).
+Proof.
+  intros Hinv. repeat split; intros.
+  - unfold o_read_dir. pose proof (ok_open_file s name 0 0 Hinv) as H1.
+    destruct (o_open_file s name 0 0) as [s1 [r|f]] eqn:E; [exact H1|].
+    apply (ok_handle_calls s1 f (open_file_handle_ok _ _ _ _ _ _ E)).
+  - unfold o_read_file. pose proof (ok_open_file s name 0 0 Hinv) as H1.
+    destruct (o_open_file s name 0 0) as [s1 [r|f]] eqn:E; [exact H1|].
+    pose proof (proj1 (ok_handle_calls s1 f (open_file_handle_ok _ _ _ _ _ _ E))) as H2.
+    match goal with |- context [of_read s1 f ?n] => specialize (H2 n); destruct (of_read s1 f n) as [f' r] end.
+    cbn [snd] in H2. destruct r; try exact H2; exact I.
+  - unfold o_write_file. pose proof (ok_open_file s name (O_WRONLY + O_CREATE + O_TRUNC) p Hinv) as H1.
+    destruct (o_open_file s name (O_WRONLY + O_CREATE + O_TRUNC) p) as [s1 [r|f]] eqn:E; [exact H1|].
+    pose proof (ok_handle_calls s1 f (open_file_handle_ok _ _ _ _ _ _ E)) as (_ & _ & H2 & _).
+    specialize (H2 d). destruct (of_write s1 f d) as [[s2 f2] r]. cbn [snd] in *. destruct r; try exact H2; exact I.
+Qed.
+
+(* ---- the world ------------------------------------------------------------------------------------------- *)
+Definition handles_ok (w : oworld) : Prop := Forall (handle_ok (o_heap (ow_fs w))) (ow_handles w).
+
+(* the call addresses the one view and an existing handle *)
+Definition call_in_range (w : oworld) (c : call) : Prop :=
+  match c with
+  | CMkdir vi _ _ | CMkdirAll vi _ _ | COpenFile vi _ _ _ | CRemove vi _ | CRemoveAll vi _ | CRename vi _ _
+  | CLink vi _ _ | CSymlink vi _ _ | CReadlink vi _ | CTruncate vi _ _ | CChmod vi _ _ | CChown vi _ _ _
+  | CLchown vi _ _ _ | CChtimes vi _ | CChdir vi _ | CGetwd vi | CStat vi _ | CLstat vi _ | CEvalSymlinks vi _
+  | CReadDir vi _ | CReadFile vi _ | CWriteFile vi _ _ _ | CSub vi _ | CSetUser vi _ _ _ | CSetUMask vi _ => vi = 0
+  | FRead hi _ | FReadAt hi _ _ | FWrite hi _ | FWriteAt hi _ _ | FSeek hi _ _ | FTruncate hi _ | FStat hi | FSync hi
+  | FChmod hi _ | FChown hi _ _ | FChdir hi | FClose hi | FReadDir hi _ | FReaddirnames hi _ => hi < length (ow_handles w)
+  end.
+
+Theorem C07_orefa_total : forall w c,
+  orefa_inv (ow_fs w) -> handles_ok w -> call_in_range w c -> res_ok (snd (ostep w c)).
+Proof.
+  intros w c Hinv Hh Hr. unfold ostep, o_on_view, o_on_handle, olift.
+  destruct c; cbn [call_in_range] in Hr; try subst vi;
+    try (destruct (nth_error (ow_handles w) hi) as [f|] eqn:Ef; [|apply nth_error_None in Ef; lia];
+         assert (Hf : handle_ok (o_heap (ow_fs w)) f) by (apply (proj1 (Forall_forall _ _) Hh); eapply nth_error_In; exact Ef);
+         pose proof (ok_handle_calls (ow_fs w) f Hf) as (K1 & K2 & K3 & K4 & K5 & K6 & K7 & K8 & K9 & K10 & K11 & K12 & K13 & K14));
+    cbn [snd].
+  - apply ok_mkdir; exact Hinv.
+  - apply ok_mkdir_all; exact Hinv.
+  - pose proof (ok_open_file (ow_fs w) p flag perm Hinv) as H.
+    destruct (o_open_file (ow_fs w) p flag perm) as [s1 [r|f]]; [exact H|exact I].
+  - apply ok_remove; exact Hinv.
+  - apply ok_remove_all; exact Hinv.
+  - apply ok_rename; exact Hinv.
+  - apply ok_link; exact Hinv.
+  - unfold o_symlink. destruct (owin (ow_fs w)); exact I.
+  - unfold o_readlink. destruct (owin (ow_fs w)); exact I.
+  - apply (ok_simple_calls (ow_fs w) p Hinv).
+  - apply (ok_simple_calls (ow_fs w) p Hinv).
+  - apply (ok_simple_calls (ow_fs w) p Hinv).
+  - apply (ok_simple_calls (ow_fs w) p Hinv).
+  - apply (ok_simple_calls (ow_fs w) p Hinv).
+  - apply (ok_simple_calls (ow_fs w) p Hinv).
+  - exact I.
+  - apply (ok_simple_calls (ow_fs w) p Hinv).
+  - apply (ok_simple_calls (ow_fs w) p Hinv).
+  - exact I.
+  - apply (ok_composites (ow_fs w) p Hinv).
+  - apply (ok_composites (ow_fs w) p Hinv).
+  - apply (ok_composites (ow_fs w) p Hinv).
+  - exact I.
+  - exact I.
+  - exact I.
+  - specialize (K1 n). destruct (of_read (ow_fs w) f n). exact K1.
+  - apply K2.
+  - specialize (K3 b). destruct (of_write (ow_fs w) f b) as [[s1 f1] r]. exact K3.
+  - apply K4.
+  - specialize (K5 off whence). destruct (of_seek (ow_fs w) f off whence). exact K5.
+  - apply K6.
+  - exact K7.
+  - exact K8.
+  - apply K9.
+  - apply K10.
+  - exact K11.
+  - destruct (f_close f). exact K12.
+  - specialize (K13 n). destruct (of_read_dir (ow_fs w) f n). exact K13.
+  - specialize (K14 n). destruct (of_readdirnames (ow_fs w) f n). exact K14.
+Qed.
